@@ -690,16 +690,20 @@ impl Xot {
                         span: _,
                     } => {
                         if prefix.as_str() == "xmlns" {
+                            // the value of a namespace declaration is an
+                            // attribute value like any other
+                            let uri = parse_attribute(value.as_str().into(), value.start())?;
                             builder.prefix(
                                 local.as_str(),
-                                value.as_str(),
+                                &uri,
                                 Span::from_prefix_name(prefix, local),
                                 self,
                             )?;
                         } else if prefix.is_empty() && local.as_str() == "xmlns" {
+                            let uri = parse_attribute(value.as_str().into(), value.start())?;
                             builder.prefix(
                                 "",
-                                value.as_str(),
+                                &uri,
                                 Span::from_prefix_name(prefix, local),
                                 self,
                             )?;
